@@ -32,11 +32,26 @@ pub struct Config {
     /// edges[i] = bitmask of libraries imported by library i (in ascending order)
     pub edges: Vec<u8>,
     pub health: Vec<Health>,
+    /// how the import sets of the library-to-library edges are written (see `import_set`)
+    pub style: u8,
+}
+pub const STYLES: [&str; 6] = ["direct", "only", "prefix", "rename", "except", "mixed"];
+
+/// the import set by which library i imports library j
+fn import_set(style: u8, i: usize, j: usize) -> String {
+    let st = if style == 5 { 1 + ((i + 2 * j) % 4) as u8 } else { style };
+    match st {
+        0 => format!("({})", NAMES[j]),
+        1 => format!("(only ({0}) v{0})", NAMES[j]),
+        2 => format!("(prefix ({}) p-)", NAMES[j]),
+        3 => format!("(rename ({0}) (v{0} w{0}))", NAMES[j]),
+        _ => format!("(except ({0}) v{0})", NAMES[j]),
+    }
 }
 
 impl Config {
     pub fn describe(&self) -> String {
-        let mut s = String::new();
+        let mut s = format!("import-sets={} ", STYLES[self.style as usize]);
         for i in 0..self.n {
             let imps: Vec<&str> = (0..self.n).filter(|j| self.edges[i] & (1 << j) != 0).map(|j| NAMES[j]).collect();
             s.push_str(&format!("{}[{:?}]->({}) ", NAMES[i], self.health[i], imps.join(",")));
@@ -77,7 +92,13 @@ impl Space {
             for g in 0..ngraphs {
                 let edges: Vec<u8> = (0..n).map(|i| ((g >> (i * n)) & ((1 << n) - 1)) as u8).collect();
                 for h in health_assignments(n, false) {
-                    c.push(Config { n, edges: edges.clone(), health: h });
+                    for style in 0..STYLES.len() as u8 {
+                        // the spelling of an import set matters only where there is an edge
+                        if style > 0 && edges.iter().all(|e| *e == 0) {
+                            continue;
+                        }
+                        c.push(Config { n, edges: edges.clone(), health: h.clone(), style });
+                    }
                 }
             }
         }
@@ -87,25 +108,35 @@ impl Space {
         health_assignments(3, !self.thorough)
     }
     pub fn total(&self) -> u64 {
-        self.configs_1_2.len() as u64 + 512 * self.h3().len() as u64
+        self.configs_1_2.len() as u64 + 512 * self.h3().len() as u64 + 512 * STYLED3.len() as u64
     }
     pub fn config(&self, i: u64, h3: &[Vec<Health>]) -> Config {
         if (i as usize) < self.configs_1_2.len() {
             return self.configs_1_2[i as usize].clone();
         }
         let k = i as usize - self.configs_1_2.len();
+        if k >= 512 * h3.len() {
+            // all-healthy graphs on 3 libraries with the edges written as other import sets
+            let k = k - 512 * h3.len();
+            let (g, si) = (k / STYLED3.len(), k % STYLED3.len());
+            let edges: Vec<u8> = (0..3).map(|r| ((g >> (r * 3)) & 7) as u8).collect();
+            return Config { n: 3, edges, health: vec![Health::Healthy; 3], style: STYLED3[si] };
+        }
         let (g, hi) = (k / h3.len(), k % h3.len());
         let edges: Vec<u8> = (0..3).map(|r| ((g >> (r * 3)) & 7) as u8).collect();
-        Config { n: 3, edges, health: h3[hi].clone() }
+        Config { n: 3, edges, health: h3[hi].clone(), style: 0 }
     }
 }
+
+/// import-set styles applied to the (all-healthy) graphs on 3 libraries
+const STYLED3: [u8; 2] = [1, 5];
 
 fn lib_name(i: usize) -> LibraryName {
     LibraryName(vec![LibraryNameElement::Identifier(NAMES[i].to_string())])
 }
 
 fn lib_source(c: &Config, i: usize, defined_name: &str, body_faults: bool) -> String {
-    let imps: Vec<String> = (0..c.n).filter(|j| c.edges[i] & (1 << j) != 0).map(|j| format!("({})", NAMES[j])).collect();
+    let imps: Vec<String> = (0..c.n).filter(|j| c.edges[i] & (1 << j) != 0).map(|j| import_set(c.style, i, j)).collect();
     let import = if imps.is_empty() { String::new() } else { format!(" (import {})", imps.join(" ")) };
     let value = if body_faults { "boom-unbound".to_string() } else { format!("{}", i + 1) };
     format!("(define-library ({}) (export v{}){} (begin (define v{} {})))\n", defined_name, NAMES[i], import, NAMES[i], value)
@@ -418,7 +449,7 @@ pub fn run(ctx: &Ctx) -> i32 {
             tier: ctx.tier_name(),
             seed: ctx.seed,
             exhaustive: true,
-            rule: format!("every directed graph (self-loops allowed) on 1 and 2 libraries with every assignment of 7 node healths (healthy, missing, faulting body, wrong name in file, syntactically broken, not UTF-8, path is a directory); every graph on 3 libraries (512) with {}; for each configuration every history of import attempts on one interpreter (length 3 on <= 2 libraries{}; maximal histories cover their prefixes), with the libraries as files under the program directory (decoy libraries with other values in the working directory) and as registered sources; states = configurations, transitions = import attempts", if ctx.thorough() { "every health assignment (343)" } else { "at most one unhealthy node (19 assignments)" }, if ctx.thorough() { ", length 3 on 3 libraries with at most one unhealthy node, otherwise 2" } else { ", length 2 on 3 libraries" }),
+            rule: format!("every directed graph (self-loops allowed) on 1 and 2 libraries with every assignment of 7 node healths (healthy, missing, faulting body, wrong name in file, syntactically broken, not UTF-8, path is a directory); every graph on 3 libraries (512) with {}; the library-to-library edges written as plain names and, for all configurations on <= 2 libraries and the all-healthy graphs on 3, as only / prefix / rename / except / mixed import sets; for each configuration every history of import attempts on one interpreter (length 3 on <= 2 libraries{}; maximal histories cover their prefixes), with the libraries as files under the program directory (decoy libraries with other values in the working directory) and as registered sources; states = configurations, transitions = import attempts", if ctx.thorough() { "every health assignment (343)" } else { "at most one unhealthy node (19 assignments)" }, if ctx.thorough() { ", length 3 on 3 libraries with at most one unhealthy node, otherwise 2" } else { ", length 2 on 3 libraries" }),
             bounds: json!({"configurations": total, "worker_deaths": res.deaths.len()}),
             assumptions: vec!["reference loader: cyclic-import error iff a cycle is reachable through readable libraries, the underlying error kind iff an unhealthy library is reachable, either when both, success otherwise; shared dependencies are not cycles".into(), "hook H2 (verif_in_progress) gives the in-progress set".into()],
             wall_s: ctx.elapsed(),
